@@ -20,7 +20,7 @@ ID = "C13"
 LEAN_MODULES = ["Barril.Props.C13"]
 DRIVERS = ["drv_heap"]
 DRIVER_EXE = "drv_heap"
-RULE = ("seeded histories (quick 500 x ~45 steps, thorough 7000 x ~50) over a pool that starts with objects of "
+RULE = ("seeded histories (quick 500 x ~45 steps, thorough 6500 x ~50) over a pool that starts with objects of "
         "every class and container kind (Scalar; Array/FixedArray over list, tuple, ndarray; FractionScalar; "
         "empty, unknown-caption and - through * and / - derived quantities; two Arrays over one list) and grows "
         "with every result: + - * / // between pool members and with plain numbers on either side, == and <, "
@@ -38,8 +38,16 @@ RULE = ("seeded histories (quick 500 x ~45 steps, thorough 7000 x ~50) over a po
         "IsValid / CheckValidity / ValidateValues (twice: cached verdict) on Scalars, FractionScalars and unsorted "
         "Arrays / FixedArrays of six categories WITH limits (accepted and rejected), a caller scribbling (edit, append, "
         "clear) into containers returned by GetValues(other unit) followed by GetValues / CreateCopy(unit) again, "
-        "plus a malformed stream (class mixes, foreign units, bad dimensions, zero divisors) and a stateless stream "
-        "(quick 1500, thorough 20000) validating list / tuple / float64 / float32 containers with NaNs; distinct = "
+        "x ** e on every class (Scalar.__pow__ as repeated Multiply; e < 2 returns x itself), ndarray containers of "
+        "every dtype in use (float64, int64, int32 in the general stream with a wrap-around guard; float32 in a closing "
+        "pattern judged in single precision), units drawn by the SHAPE of their table row (each coefficient of the "
+        "to-base formula classed 0 / 1 / -1 / other, read from the table on every run: two shapes join every history "
+        "and a pattern makes an ndarray-backed Array / FixedArray in such a unit the operand of GetValues(unit), "
+        "CreateCopy(unit), IndexAsScalar, ChangingIndex (also its (value, unit[, category]) form) and of + - * / // on "
+        "either side), hash() of every class, "
+        "plus a malformed stream (class mixes, foreign units, bad dimensions, zero divisors), a stateless stream "
+        "(quick 1500, thorough 20000) validating list / tuple / float64 / float32 containers with NaNs and a stateless "
+        "stream (quick 300, thorough 3000) of tuple-of-tuples Arrays (GetValues(unit), IsValid, str, CreateCopy, ==); distinct = "
         "distinct history; non-trivial = some step involved an object that shares a container, a FractionValue "
         "or an interned quantity with an earlier pool member and at least one step allocated cells")
 EXHAUSTIVE = {"quick": False, "thorough": False}
@@ -52,7 +60,8 @@ ASSUMPTIONS = [
     "validity memo) are not part of the property",
     "numpy elementwise semantics = map/zipWith over exact rationals; values are finite, NaN-free floats, compared "
     "within 2**20 eps * M plus the distance inherited from the operands (accuracy itself is C01-C04's business); "
-    "tuple-of-tuples Arrays are not generated",
+    "tuple-of-tuples Arrays only in a stateless stream (conversion / validation / formatting / copy of one Array, "
+    "numbers and verdict compared with the model of the flattened list)",
     "Fraction's 1e-8 numerator rounding (Fraction.__init__ loop) is C18's; the model keeps exact rationals and "
     "fraction parts are compared within 2e-8",
     "the memo table of CheckCategoryUnit and the identity of interned quantities are C05/C07's; the model interns "
@@ -73,6 +82,7 @@ CORE = {
 }
 VALUES = [0.0, 1.0, -2.5, 3.75, 100.0, 0.1, 7.0, -13.2, 1e-3, 2500.0]
 NZ_VALUES = [1.0, -2.5, 3.75, 100.0, 0.1, 7.0, -13.2, 2500.0]
+F32_VALUES = [1.0, -2.5, 3.75, 100.0, 0.5, 7.0, -13.25, 2500.0]       # exactly representable in float32
 KINDS = ["list", "tuple", "ndarray"]
 BINOPS = {"add": operator.add, "sub": operator.sub, "mul": operator.mul, "div": operator.truediv,
           "floordiv": operator.floordiv}
@@ -93,14 +103,28 @@ MAX_EXP = 6
 
 
 # ------------------------------------------------------------------------------------------ real side
-def _container(kind, xs):
+DTYPES = ["float64", "int64", "int32", "float32"]      # the ndarray dtypes in use (library tests: all four)
+
+
+def _container(kind, xs, dt=None):
     import numpy
 
     if kind == "list":
         return list(xs)
     if kind == "tuple":
         return tuple(xs)
-    return numpy.array(xs, dtype=numpy.float64)
+    return numpy.array(xs, dtype=getattr(numpy, dt or "float64"))
+
+
+def _dt(v):
+    """dtype of an ndarray container; "float32" for a number / list / tuple that holds numpy.float32 items"""
+    import numpy
+
+    if isinstance(v, numpy.ndarray):
+        return str(v.dtype)
+    if isinstance(v, (list, tuple)):
+        return "float32" if any(isinstance(x, numpy.float32) for x in v) else None
+    return "float32" if isinstance(v, numpy.float32) else None
 
 
 def _kind_of(v):
@@ -131,7 +155,10 @@ def _snap(o):
 
     q = _qsnap(o.GetQuantity())
     if isinstance(o, Scalar):
-        return dict(cls="scalar", v=_hex(o.GetValue()), q=q)
+        d = dict(cls="scalar", v=_hex(o.GetValue()), q=q)
+        if _dt(o.GetValue()):
+            d["dt"] = _dt(o.GetValue())
+        return d
     if isinstance(o, FractionScalar):
         v = o.GetValue()
         fr = v.GetFraction()
@@ -141,6 +168,8 @@ def _snap(o):
         vals = o.GetValues()
         d = dict(cls="fixed" if isinstance(o, FixedArray) else "array", kind=_kind_of(vals),
                  xs=[_hex(x) for x in vals], cid=id(vals), q=q)
+        if _dt(vals):
+            d["dt"] = _dt(vals)
         if isinstance(o, FixedArray):
             d["dim"] = int(o.GetDimension())
         return d
@@ -176,7 +205,7 @@ def _public(s):
     q = s["q"]
     d = dict(cls=s["cls"], items=[list(t) for t in q["items"]], comp=[list(t) for t in q["comp"]], cap=q["cap"],
              derived=q["derived"], unit=q["unit"])
-    for k in ("v", "kind", "xs", "dim", "n", "num", "den"):
+    for k in ("v", "kind", "xs", "dim", "n", "num", "den", "dt"):
         if k in s:
             d[k] = s[k]
     return d
@@ -203,13 +232,13 @@ def _run_op(db, pool, op):
             elif k == "mkCaptionScalar":
                 r = Scalar(ObtainQuantity(op["u"], None, op["cap"]), op["v"])
             elif k == "mkArray":
-                r = Array(_container(op["kind"], op["xs"]), op["u"], op["c"])
+                r = Array(_container(op["kind"], op["xs"], op.get("dt")), op["u"], op["c"])
             elif k == "mkArrayFrom":
                 r = Array(pool[op["i"]].GetValues(), op["u"], op["c"])
             elif k == "mkEmptyArray":
-                r = Array.CreateEmptyArray(_container(op["kind"], op["xs"]))
+                r = Array.CreateEmptyArray(_container(op["kind"], op["xs"], op.get("dt")))
             elif k == "mkFixed":
-                r = FixedArray(op["dim"], _container(op["kind"], op["xs"]), op["u"], op["c"])
+                r = FixedArray(op["dim"], _container(op["kind"], op["xs"], op.get("dt")), op["u"], op["c"])
             elif k == "mkFScalar":
                 r = FractionScalar(FractionValue(op["n"], (op["num"], op["den"])), op["u"], op["c"])
             elif k == "mkDerived":
@@ -221,11 +250,13 @@ def _run_op(db, pool, op):
                 if op["cls"] == "scalar":
                     r = Scalar.CreateWithQuantity(q, op["v"])
                 elif op["cls"] == "array":
-                    r = Array.CreateWithQuantity(q, _container(op["kind"], op["xs"]))
+                    r = Array.CreateWithQuantity(q, _container(op["kind"], op["xs"], op.get("dt")))
                 else:
-                    r = FixedArray.CreateWithQuantity(q, _container(op["kind"], op["xs"]))
+                    r = FixedArray.CreateWithQuantity(q, _container(op["kind"], op["xs"], op.get("dt")))
             elif k == "arith":
                 r = BINOPS[op["f"]](_operand(pool, op["a"]), _operand(pool, op["b"]))
+            elif k == "pow":
+                r = pool[op["i"]] ** op["e"]          # Scalar.__pow__; `self` itself for an exponent below 2
             elif k == "eq":
                 a, b = pool[op["i"]], pool[op["j"]]
                 return dict(ok=dict(t="bool", b=bool(a == b), near=_near(a, b))), None
@@ -237,13 +268,13 @@ def _run_op(db, pool, op):
                 o = pool[op["i"]]
                 r = o.GetAbstractValue(op.get("u"))
                 if isinstance(o, Scalar):
-                    return dict(ok=dict(t="num", x=_hex(r))), None
+                    return dict(ok=dict(t="num", x=_hex(r), dt=_dt(r))), None
                 if isinstance(o, FractionScalar):
                     fr = r.GetFraction()
                     return dict(ok=dict(t="fval", shared=r is o.GetAbstractValue(), n=_hex(r.GetNumber()),
                                         num=int(fr.numerator), den=int(fr.denominator))), None
                 return dict(ok=dict(t="cont", shared=None if _no_identity(r) else r is o.GetAbstractValue(),
-                                    kind=_kind_of(r), xs=[_hex(x) for x in r])), None
+                                    kind=_kind_of(r), xs=[_hex(x) for x in r], dt=_dt(r))), None
             elif k == "createCopy":
                 r = pool[op["i"]].CreateCopy(unit=op.get("u"), category=op.get("c"))
             elif k == "copy":
@@ -268,7 +299,7 @@ def _run_op(db, pool, op):
             elif k == "validateWith":
                 o = pool[op["i"]]
                 src = op["src"]
-                vals = (pool[src["j"]].GetValues() if "j" in src else _container(src["kind"], src["xs"]) if "kind" in src
+                vals = (pool[src["j"]].GetValues() if "j" in src else _container(src["kind"], src["xs"], src.get("dt")) if "kind" in src
                         else o.GetValues())
                 q = o.GetQuantity() if op.get("qk") is None else pool[op["qk"]].GetQuantity()
                 near = _near_limit_vals(vals, q)
@@ -287,7 +318,7 @@ def _run_op(db, pool, op):
                 shared = None if _no_identity(r) else r is own
                 if r is not own and not isinstance(r, tuple):
                     _scribble(r, op["how"])          # the CALLER writes into what it was handed
-                return dict(ok=dict(t="cont", shared=shared, kind=_kind_of(r), xs=[_hex(x) for x in r])), None
+                return dict(ok=dict(t="cont", shared=shared, kind=_kind_of(r), xs=[_hex(x) for x in r], dt=_dt(r))), None
             elif k == "format":
                 o = pool[op["i"]]
                 if op["how"] == "str":
@@ -347,11 +378,11 @@ def _near_limit_vals(vals, q):
 
 PROBES = {
     "any": ["ne", "unitname", "validunits", "hascategory", "suffix", "getters", "qcopy", "qhash", "qmakecopy", "qcaption",
-            "qconvert", "qcheckvalue", "qarith", "qpow", "createcopyinstance"],
+            "qconvert", "qcheckvalue", "qarith", "qpow", "createcopyinstance", "objhash"],
     "Scalar": ["hash", "almostequal", "valueandunit", "formattedvalue", "formatted", "order", "pow", "value"],
     "FractionScalar": ["valueandunit", "formattedvalue", "formatted", "order", "convertfraction", "value"],
     "Array": ["len", "getitem", "slice", "iter", "values", "fromscalars"],
-    "FixedArray": ["len", "getitem", "slice", "iter", "values", "dimension", "checkvalues", "indexq"],
+    "FixedArray": ["len", "getitem", "slice", "iter", "values", "dimension", "checkvalues", "indexq", "changeindex"],
 }
 
 
@@ -400,12 +431,14 @@ def _probe(pool, op):
             o.CreateCopyInstance(), o.__copy__(), o.__deepcopy__({})
         elif w == "hash":
             hash(o)
+        elif w == "objhash":
+            hash(o)          # Array / FixedArray / FractionScalar: NotImplementedError
         elif w == "almostequal":
             o.AlmostEqual(o2, 3)
         elif w == "valueandunit":
             o.GetValueAndUnit()
         elif w == "formattedvalue":
-            o.GetFormattedValue(), o.GetFormattedValue(u)
+            o.GetFormattedValue(), o.GetFormattedValue(u), o.GetFormattedValueFormat()
         elif w == "formatted":
             o.GetFormatted(), o.GetFormatted(u), str(o)
         elif w == "order":
@@ -436,6 +469,14 @@ def _probe(pool, op):
             o.CheckValues(o.GetValues()), o.CheckValues(o.GetValues(), o.GetDimension())
         elif w == "indexq":
             o.IndexAsScalar(0, q2), o.IndexAsScalar(-1)
+        elif w == "changeindex":
+            idx, uvu = op.get("idx", 0), op.get("uvu", False)
+            o.IndexAsScalar(idx)
+            o.ChangingIndex(idx, _operand(pool, op.get("v", dict(n=1.5))), uvu)
+            # the tuple form `(value, unit[, category])`: Scalar(own quantity, values[index]).CreateCopy(*value)
+            o.ChangingIndex(idx, (1.5, o.GetUnit()), uvu)
+            o.ChangingIndex(idx, (None, u), not uvu)
+            o.ChangingIndex(idx, (2.5, u, o.GetCategory()), uvu)
     except Exception:
         pass
 
@@ -547,12 +588,25 @@ class Gen:
         self.ctx, self.rng = ctx, rng
         self.db = ctx.db
         self.pool, self.ops = [], []
-        extra = rng.sample(ctx.other_types, 2) if ctx.other_types else []
+        extra = rng.sample(ctx.other_types, 1) if ctx.other_types else []
         self.types = {qt: (list(us), list(cs) + [c["name"] for c in LIMITED if c["qtype"] == qt])
                       for qt, (us, cs) in CORE.items()}
         for qt in extra:
             us = ctx.units[qt]
             self.types[qt] = (rng.sample(us, min(4, len(us))), ctx.cats.get(qt) or [qt])
+        # two units drawn by the SHAPE of their table row join the unit lists of this history
+        for key in rng.sample(ctx.shape_keys, min(2, len(ctx.shape_keys))):
+            self.add_unit(*rng.choice(ctx.shapes[key]))
+        self.lowprec = set()        # pool members that hold / came from float32 numbers
+
+    def add_unit(self, qt, u):
+        """make `u` (and two more units of its quantity type) available to this history"""
+        rng = self.rng
+        if qt not in self.types:
+            us = self.ctx.units[qt]
+            self.types[qt] = (rng.sample(us, min(2, len(us))), self.ctx.cats.get(qt) or [qt])
+        if u not in self.types[qt][0]:
+            self.types[qt][0].append(u)
 
     def qt_units(self, qt):
         return self.types[qt]
@@ -567,11 +621,55 @@ class Gen:
         return [self.rng.choice(NZ_VALUES if nz else VALUES) for _ in range(n)]
 
     def push(self, op):
+        op = self.int_guard(self.dtyped(op))
         out, new = _run_op(self.db, self.pool, op)
         self.ops.append(op)
         if new is not None:
             self.pool.append(new)
         return out
+
+    def dtyped(self, op):
+        """an ndarray container gets one of the dtypes in use (int64 / int32 with integral values; float32 only in
+        `pattern_f32`, at the end of a history)"""
+        rng = self.rng
+        tgt = op.get("src") if op["k"] == "validateWith" else op
+        if not isinstance(tgt, dict) or tgt.get("kind") != "ndarray" or "dt" in tgt or "xs" not in tgt:
+            return op
+        if op["k"] not in ("mkArray", "mkFixed", "mkEmptyArray", "mkDerived", "validateWith") or rng.random() < 0.6:
+            return op
+        dt = rng.choice(["int64", "int32"])
+        xs = [float(round(x)) if round(x) != 0 or x == 0 else (1.0 if x > 0 else -1.0) for x in tgt["xs"]]
+        tgt = dict(tgt, dt=dt, xs=xs)
+        return dict(op, src=tgt) if op["k"] == "validateWith" else tgt
+
+    def int_guard(self, op):
+        """numpy integer arithmetic wraps around silently: an integer result that would leave its dtype is
+        computed with `/` (a float result) instead"""
+        import numpy
+
+        if op["k"] in ("changingIndex", "indexAsScalar") and op["i"] < len(self.pool):
+            # list(ndarray) of an int / float32 array holds numpy scalars that are no Python float: a list / tuple /
+            # Scalar built from them makes UnitDatabase.Convert raise TypeError when unit matching hands it one
+            # (`isinstance(value, (float, int))` fails, the number is iterated) - reported; element types inside
+            # lists are not modelled, so these two calls are made as probes (result dropped) on such arrays
+            v = _inner(self.pool[op["i"]])
+            if isinstance(v, numpy.ndarray) and v.dtype != numpy.float64:
+                return dict(k="probe", i=op["i"], j=None, what="changeindex", u=None, idx=op["idx"],
+                            v=op.get("v", dict(n=1.5)), uvu=op.get("uvu", False))
+            return op
+        if op["k"] != "arith" or op["f"] not in ("add", "sub", "mul") or "i" not in op["a"] or "i" not in op["b"]:
+            return op
+        try:
+            va, vb = (_inner(self.pool[op[k]["i"]]) for k in ("a", "b"))
+            if not all(isinstance(v, numpy.ndarray) and v.dtype.kind == "i" for v in (va, vb)):
+                return op
+            ma, mb = (max([abs(int(x)) for x in v] or [0]) for v in (va, vb))
+            bits = 31 if va.dtype.itemsize == 4 and vb.dtype.itemsize == 4 else 62
+            if (ma * mb if op["f"] == "mul" else ma + mb) >= 2 ** bits:
+                return dict(op, f="div")
+        except Exception:
+            pass
+        return op
 
     def of_class(self, *names):
         return [i for i, o in enumerate(self.pool) if type(o).__name__ in names]
@@ -601,7 +699,7 @@ class Gen:
                 return True
         return False
 
-    def no_floor_tie(self, op):
+    def no_floor_tie(self, op, strict=False):
         """`//` whose true quotient is (nearly) an integer is decided by float rounding: use `/` instead; a sum or
         difference that cancels (result below 1e-6 of an operand) is float noise on the real side and an exact
         zero in the model, and everything computed from it would be incomparable: use `*` instead"""
@@ -613,7 +711,7 @@ class Gen:
                 with numpy.errstate(all="raise"):
                     r = BINOPS[op["f"]](a, b)
                 ref = _floats(a) if not isinstance(a, float) else _floats(b)
-                if any(x != 0 and abs(y) <= 1e-6 * abs(x) for x, y in zip(ref, _floats(r))):
+                if any(x != 0 and abs(y) <= (1e-2 if strict else 1e-6) * abs(x) for x, y in zip(ref, _floats(r))):
                     return dict(op, f="mul")
             except Exception:
                 pass
@@ -624,7 +722,7 @@ class Gen:
         try:
             with numpy.errstate(all="raise"):
                 q = operator.truediv(_operand(self.pool, op["a"]), _operand(self.pool, op["b"]))
-            if any(abs(x - round(x)) < 1e-6 * max(1.0, abs(x)) for x in _floats(q)):
+            if any(abs(x - round(x)) < (1e-3 if strict else 1e-6) * max(1.0, abs(x)) for x in _floats(q)):
                 return dict(op, f="div")
         except Exception:
             pass
@@ -1016,6 +1114,92 @@ class Gen:
         self.push(self.no_floor_tie(dict(k="arith", f=rng.choice(["add", "sub", "mul", "div"]), a=dict(i=tops[0]),
                                          b=dict(i=tops[1]))))
 
+    def gen_pow(self):
+        """`x ** e` (Scalar.__pow__: repeated `*`; `x` itself for e < 2), also on the classes without `__pow__`"""
+        rng = self.rng
+        sc = [i for i in self.of_class("Scalar") if not self.too_big(i) and all(
+            abs(int(ue[1])) <= 2 for ue in self.pool[i].GetQuantity().GetCategoryToUnitAndExps().values())
+            and all(abs(x) < 1e8 for x in _floats(self.pool[i]))]
+        if sc and rng.random() < 0.85:
+            return dict(k="pow", i=rng.choice(sc), e=rng.choice([2, 2, 3, 3, 1, 0, -1]))
+        return dict(k="pow", i=rng.randrange(len(self.pool)), e=rng.choice([1, 2]))
+
+    def pattern_shapes(self, dt=None):
+        """an ndarray-backed Array / FixedArray in a unit drawn by the SHAPE of its table row (every distinct
+        coefficient pattern of the to-base formula, read from the table), then every conversion-like read of it
+        (GetValues(unit), CreateCopy(unit), IndexAsScalar, being the operand that unit matching converts: on the
+        right AND on the left of + - * / //), then a look at its own values"""
+        rng = self.rng
+        ctx = self.ctx
+        qt, u = rng.choice(ctx.shapes[rng.choice(ctx.shape_keys)])
+        if dt == "float32" and not self.moderate(qt, u):
+            return
+        self.add_unit(qt, u)
+        us, cs = self.types[qt]
+        others = [x for x in us if x != u and (dt != "float32" or self.moderate(qt, x))] or [u]
+        n = rng.choice([2, 3])
+        n0 = len(self.pool)
+        vals = F32_VALUES if dt == "float32" else NZ_VALUES
+        xs = [rng.choice(vals) for _ in range(n)]
+        c = rng.choice(cs + [None])
+        if rng.random() < 0.6:
+            op = dict(k="mkArray", kind="ndarray", xs=xs, u=u, c=c)
+        else:
+            op = dict(k="mkFixed", dim=n, kind="ndarray", xs=xs, u=u, c=c)
+        if dt:
+            op["dt"] = dt
+        self.push(op)
+        if len(self.pool) == n0:
+            return
+        i = n0
+        v = rng.choice(others)
+        p = len(self.pool)
+        pk = rng.choice(KINDS)
+        pop = dict(k="mkArray", kind=pk, xs=self.values(n, nz=True), u=v, c=rng.choice(cs + [None]))
+        if type(self.pool[i]).__name__ == "FixedArray":
+            pop.update(k="mkFixed", dim=n)
+        if dt:
+            pop["dt"] = "float64"
+        self.push(pop)
+        partner = p if len(self.pool) == p + 1 else None
+        steps = [dict(k="getValue", i=i, u=v), dict(k="createCopy", i=i, u=v, c=None), dict(k="getValue", i=i, u=None)]
+        if type(self.pool[i]).__name__ == "FixedArray":
+            steps.append(dict(k="indexAsScalar", i=i, idx=rng.randrange(-n, n)))
+            steps.append(dict(k="changingIndex", i=i, idx=rng.randrange(n), v=dict(n=rng.choice(VALUES)), uvu=False))
+        if partner is not None:
+            for f in rng.sample(["add", "sub", "mul", "div", "floordiv"], 3):
+                a, b = (partner, i) if rng.random() < 0.6 else (i, partner)
+                steps.append(dict(k="arith", f=f, a=dict(i=a), b=dict(i=b)))
+        num = dict(n=rng.choice(NZ_VALUES))
+        for f in rng.sample(["add", "sub", "mul", "div", "floordiv"], 2):
+            steps.append(dict(k="arith", f=f, a=dict(i=i), b=num) if rng.random() < 0.5 else
+                         dict(k="arith", f=f, a=num, b=dict(i=i)))
+        rng.shuffle(steps)
+        for st in steps[:rng.choice([3, 4, 6])] if not dt else steps:
+            if st["k"] == "arith":
+                st = self.no_floor_tie(st, strict=bool(dt))
+            self.push(st)
+        self.push(dict(k="getValue", i=i, u=None))
+
+    def moderate(self, qt, u):
+        """single precision overflows at 3.4e38 and underflows at 1e-38 (both raise under errstate): float32
+        containers only meet units whose formula coefficients and factor to the base unit are within 1e+-12"""
+        try:
+            info = self.db.GetInfo(qt, u)
+            for n in "abcd":
+                x = getattr(info.tobase, "__%s__" % n, 1.0)
+                if x != 0 and not (1e-12 < abs(x) < 1e12):
+                    return False
+            f = abs(info.tobase(1.0) - info.tobase(0.0))
+            return 1e-12 < f < 1e12
+        except Exception:
+            return False
+
+    def pattern_f32(self):
+        """float32 containers: the same scenario on a float32 ndarray (values exactly representable), at the END of
+        a history - what comes out of it is computed in single precision and nothing else is derived from it"""
+        self.pattern_shapes(dt="float32")
+
     def history(self, steps):
         from barril.units.unit_database import UnitDatabase
 
@@ -1027,22 +1211,28 @@ class Gen:
                 if len(self.pool) >= MAX_POOL:
                     break
                 x = self.rng.random()
-                if x < 0.04:
+                if x < 0.03:
+                    self.pattern_shapes()
+                elif x < 0.05:
+                    self.push(self.gen_pow())
+                elif x < 0.08:
                     self.pattern_powers()
-                elif x < 0.07:
+                elif x < 0.11:
                     self.pattern_two_units()
-                elif x < 0.1:
+                elif x < 0.14:
                     self.pattern_limits()
-                elif x < 0.125:
+                elif x < 0.165:
                     self.pattern_scribble()
-                elif x < 0.15:
+                elif x < 0.19:
                     self.pattern_foreign_validation()
-                elif x < 0.21:
+                elif x < 0.25:
                     self.push(self.gen_probe())
-                elif x < 0.23:
+                elif x < 0.27:
                     self.push(self.gen_validate_with())
                 else:
                     self.push(self.gen_op())
+            if self.rng.random() < 0.3 and len(self.pool) < MAX_POOL + 4:
+                self.pattern_f32()
         finally:
             UnitDatabase.PopSingleton()
         return self.ops
@@ -1065,7 +1255,7 @@ def _encode(op):
             o["qk"] = op["qk"]
         return o
     for key, v in op.items():
-        if key == "k" or (key == "how" and op["k"] != "scribble"):
+        if key == "k" or key == "dt" or (key == "how" and op["k"] != "scribble"):
             continue
         if op["k"] == "probe":
             continue
@@ -1126,6 +1316,30 @@ def setup(ctx):
             assert db.GetCategoryInfo(c).quantity_type == qt, (c, qt)
     ctx.other_types = sorted(qt for qt in ctx.units if qt not in CORE and len(ctx.units[qt]) >= 2 and qt in cats
                              and qt != "Unknown")
+    # every distinct SHAPE of table row, read from the table: each coefficient of the to-base formula
+    # (A + B x) / (C + D x) classified as 0 / 1 / -1 / other ("none" = a row without formula coefficients: a base
+    # unit); the generators draw units per shape, so a formula specialised for one shape is always exercised
+    shapes = {}
+    for qt in sorted(ctx.units):
+        if qt == "Unknown" or len(ctx.units[qt]) < 2 or qt not in cats:
+            continue
+        for info in db.quantity_types[qt]:
+            shapes.setdefault(_shape(info), []).append((qt, info.unit))
+    ctx.shapes = {k: sorted(v) for k, v in shapes.items()}
+    ctx.shape_keys = sorted(ctx.shapes)
+    ctx.notes["table row shapes (A,B,C,D of the to-base formula)"] = {k: len(v) for k, v in sorted(ctx.shapes.items())}
+
+
+def _coef_class(x):
+    return "0" if x == 0 else "1" if x == 1 else "-1" if x == -1 else "x"
+
+
+def _shape(info):
+    f = info.tobase
+    try:
+        return "/".join(_coef_class(getattr(f, "__%s__" % n)) for n in "abcd")
+    except AttributeError:
+        return "none"
 
 
 def _gen(ctx, salt, n, steps):
@@ -1212,13 +1426,110 @@ def _run_validate(ctx, t):
     return out, before, after, near
 
 
+def _gen_tuples(ctx, salt, n):
+    """stateless: an Array whose container is a list / tuple of TUPLES of numbers (the form `GetValues(unit)`,
+    `_DoValidateValues` and `__str__` treat separately): conversion to another unit, validation in a category with
+    limits, formatting, CreateCopy(unit) and == leave the nested container as it was; the converted numbers and the
+    verdict are those the model gives for the flattened list"""
+    rng = ctx.fresh_rng("C13/tuples/" + salt)
+    for _ in range(n):
+        qt = rng.choice(sorted(CORE))
+        us, cs = CORE[qt]
+        lims = [c["name"] for c in LIMITED if c["qtype"] == qt]
+        c = rng.choice(cs + lims * 2 + [None])
+        u = rng.choice(us)
+        v = rng.choice(us + [u]) if rng.random() < 0.9 else rng.choice(["m", "s", "zzz"])
+        rows = [[rng.choice(VALUES + [50.0, 20.0]) for _ in range(rng.choice([1, 2, 3]))] for _ in range(rng.choice([1, 2, 3]))]
+        flat = [x for r in rows for x in r]
+        ops = [dict(k="mkArray", kind="list", xs=flat, u=u, c=c), dict(k="getValue", i=0, u=v), dict(k="isValid", i=0)]
+        yield dict(op="history", cats=_EXTRA_CATS, ops=[_encode(o) for o in ops],
+                   _t=dict(tuples=True, rows=rows, outer=rng.choice(["list", "tuple"]), u=u, c=c, v=v, ops=ops))
+
+
+def _run_tuples(ctx, t):
+    import numpy
+
+    from barril.units import Array
+    from barril.units.unit_database import UnitDatabase
+
+    db = _fresh_db(ctx)
+    UnitDatabase.PushSingleton(db)
+    try:
+        values = (list if t["outer"] == "list" else tuple)(tuple(r) for r in t["rows"])
+        a = Array(values, t["u"], t["c"])
+        look = lambda: (type(a.GetValues()).__name__, [[_hex(x) for x in r] for r in a.GetValues()], id(a.GetValues()),
+                        [id(r) for r in a.GetValues()], a.GetUnit(), a.GetCategory())
+        before = look()
+        out = {}
+        with numpy.errstate(all="raise"):
+            try:
+                r = a.GetValues(t["v"])
+                out["conv"] = dict(ok=[_hex(x) for row in r for x in row], shared=r is a.GetValues(),
+                                   nested=all(isinstance(row, tuple) for row in r) and type(r) is type(values))
+            except Exception as e:
+                out["conv"] = dict(err=err_kind(e))
+            try:
+                out["valid"] = dict(ok=bool(a.IsValid()))
+            except Exception as e:
+                out["valid"] = dict(err=err_kind(e))
+            for f in (lambda: str(a), lambda: repr(a), lambda: a.CheckValidity(), lambda: a.CreateCopy(unit=t["v"]),
+                      lambda: a.ValidateValues(a.GetValues(), a.GetQuantity()), lambda: a * 2.0, lambda: a + a):
+                try:
+                    f()
+                except Exception:
+                    pass
+            try:
+                cp = a.CreateCopy()
+                out["copy_eq"] = bool(cp == a) and not (cp != a)
+            except Exception as e:
+                out["copy_eq"] = "err:" + err_kind(e)
+        out["changed"] = before != look()
+        out["near"] = _near_limit_vals([x for r in t["rows"] for x in r], a.GetQuantity())
+    finally:
+        UnitDatabase.PopSingleton()
+    return out
+
+
+def _agree_tuples(c, io, mo):
+    if "err" in io:
+        return "harness: " + io["err"]
+    if io["changed"]:
+        return "an operation changed the nested container of the Array"
+    if io["copy_eq"] is not True:
+        return "CreateCopy() of a tuple-of-tuples Array is not equal to it: %s" % io["copy_eq"]
+    outs = mo.get("outs", [])
+    if len(outs) != 3 or "ok" not in outs[0]:
+        return "model could not build the flattened Array: %s" % str(outs)[:200]
+    conv, m = io["conv"], outs[1]
+    if ("err" in conv) != ("err" in m):
+        return "GetValues(unit): one side fails: impl=%s model=%s" % (str(conv)[:200], str(m)[:200])
+    if "err" in conv:
+        if conv["err"] != m["err"]:
+            return "GetValues(unit): error kinds differ: impl=%s model=%s" % (conv["err"], m["err"])
+    else:
+        if len(conv["ok"]) != len(m["ok"]["xs"]) or not conv["nested"] or conv["shared"] != m["ok"]["shared"]:
+            return "GetValues(unit): shape / sharing differ: impl=%s model=%s" % (str(conv)[:200], str(m["ok"])[:200])
+        for x, y in zip(conv["ok"], m["ok"]["xs"]):
+            if not _num_ok(x, y, qparse(m["M"])):
+                return "GetValues(unit): element %r vs %s" % (float.fromhex(x), float(qparse(y)))
+    val, m = io["valid"], outs[2]
+    if not io["near"]:
+        real = val.get("ok", val.get("err"))
+        model = m["ok"]["b"] if "ok" in m else m.get("err")
+        if real != model:
+            return "IsValid(): impl=%s model=%s" % (real, model)
+    return None
+
+
 def cases(ctx):
     if ctx.tier == "quick":
         yield from _gen_validate(ctx, "q", 1500)
+        yield from _gen_tuples(ctx, "q", 300)
         yield from _gen(ctx, "q", 500, 36)
     else:
         yield from _gen_validate(ctx, "t", 20000)
-        yield from _gen(ctx, "t", 7000, 42)
+        yield from _gen_tuples(ctx, "t", 3000)
+        yield from _gen(ctx, "t", 6500, 42)
 
 
 def model_line(c):
@@ -1230,7 +1541,7 @@ def case_key(c):
 
 
 def show(c):
-    if c["op"] == "validate":
+    if c["op"] == "validate" or c["_t"].get("tuples"):
         return c["_t"]
     return c["_t"]["ops"][:8]
 
@@ -1247,6 +1558,16 @@ def impl(c, ctx):
                                    out.get("ok", out.get("err")))
         n[key] = n.get(key, 0) + 1
         return dict(out, changed=before != after, near=near)
+    if c["_t"].get("tuples"):
+        try:
+            out = _run_tuples(ctx, c["_t"])
+        except Exception as e:
+            return dict(err="harness:" + type(e).__name__ + ":" + str(e)[:120])
+        n = ctx.notes.setdefault("tuple-of-tuples", {})
+        key = "GetValues(unit) -> %s, IsValid -> %s" % ("ok" if "ok" in out["conv"] else out["conv"]["err"],
+                                                        out["valid"].get("ok", out["valid"].get("err")))
+        n[key] = n.get(key, 0) + 1
+        return out
     ops = c["_t"]["ops"]
     try:
         outs, final, aliases, _pool = run_history(ctx, ops)
@@ -1258,7 +1579,7 @@ def impl(c, ctx):
         n[key] = n.get(key, 0) + 1
     m = ctx.notes.setdefault("pool", {})
     for s, a, i in zip(final, aliases, range(len(final))):
-        key = s["cls"] + ("/" + s["kind"] if "kind" in s else "")
+        key = s["cls"] + ("/" + s["kind"] if "kind" in s else "") + ("/" + s["dt"] if s.get("dt") not in (None, "float64") else "")
         key += "/derived" if s["derived"] and s["items"] else "/empty" if s["derived"] else "/caption" if s["cap"] else ""
         m[key] = m.get(key, 0) + 1
         if a is not None and a < i:
@@ -1273,16 +1594,19 @@ def impl(c, ctx):
 
 EPS = F(1, 2 ** 53)
 TOL = 2 ** 20 * EPS      # ~1.2e-10: numbers are a sanity tie here (their accuracy is C01-C04's business)
+# a step that reads or produces float32 numbers is computed in single precision; as for doubles (2**20 eps) the
+# bound leaves room for the cancellation inside affine conversions (273.15, 459.67, 101325 next to small values)
+TOL32 = F(2 ** 14, 2 ** 24)
 
 
-def _num_ok(real_hex, model_q, M, extra=0):
+def _num_ok(real_hex, model_q, M, extra=0, base=TOL):
     """|real - exact| <= (2**20 eps + extra) * max(M, |exact|); `extra` = the relative distance already observed
     between the float operands and their exact counterparts (it is inherited by the result)"""
     r = float.fromhex(real_hex)
     if r != r or r in (float("inf"), float("-inf")):
         return False
     y = qparse(model_q)
-    return abs(F(*r.as_integer_ratio()) - y) <= (TOL + extra) * max(abs(F(M)), abs(y))
+    return abs(F(*r.as_integer_ratio()) - y) <= (base + extra) * max(abs(F(M)), abs(y))
 
 
 def _frac_ok(num, den, model_q, extra=0):
@@ -1318,7 +1642,7 @@ def _syms(items):
     return [[unsym(int(c)), unsym(int(u)), int(e)] for c, u, e in items]
 
 
-def _snap_agree(rs, ms, M, extra=0):
+def _snap_agree(rs, ms, M, extra=0, base=TOL):
     if rs["cls"] != ms.get("cls"):
         return "class: impl=%s model=%s" % (rs["cls"], ms.get("cls"))
     if rs["items"] != _syms(ms["items"]):
@@ -1330,7 +1654,7 @@ def _snap_agree(rs, ms, M, extra=0):
     if rs["unit"] != unsym(int(ms["unit"])):
         return "unit: impl=%r model=%r" % (rs["unit"], unsym(int(ms["unit"])))
     if rs["cls"] == "scalar":
-        if not _num_ok(rs["v"], ms["v"], M, extra):
+        if not _num_ok(rs["v"], ms["v"], M, extra, base):
             return "value %r vs %s" % (float.fromhex(rs["v"]), float(qparse(ms["v"])))
     elif rs["cls"] == "fscalar":
         if not _num_ok(rs["n"], ms["n"], M, extra) or not _frac_ok(rs["num"], rs["den"], ms["x"], extra):
@@ -1341,14 +1665,14 @@ def _snap_agree(rs, ms, M, extra=0):
         if len(rs["xs"]) != len(ms["xs"]):
             return "length: impl=%d model=%d" % (len(rs["xs"]), len(ms["xs"]))
         for a, b in zip(rs["xs"], ms["xs"]):
-            if not _num_ok(a, b, M, extra):
+            if not _num_ok(a, b, M, extra, base):
                 return "element %r vs %s" % (float.fromhex(a), float(qparse(b)))
         if rs["cls"] == "fixed" and rs.get("dim") != ms.get("dim"):
             return "dimension: impl=%s model=%s" % (rs.get("dim"), ms.get("dim"))
     return None
 
 
-def _agree_step(op, io, mo, extra=0):
+def _agree_step(op, io, mo, extra=0, low=False):
     if op["k"] in ("isValid", "checkValidity", "validateWith") and io.get("near") and not io.get("changed"):
         return None          # a value on a limit after a conversion: the verdict is float rounding
     if io.get("changed") or mo.get("changed"):
@@ -1362,23 +1686,24 @@ def _agree_step(op, io, mo, extra=0):
     if a["t"] != b["t"]:
         return "result kinds differ: impl=%s model=%s" % (a["t"], b["t"])
     M = qparse(mo["M"])
+    base = TOL32 if low or a.get("dt") == "float32" or a.get("snap", {}).get("dt") == "float32" else TOL
     if a["t"] == "obj":
         if a["fresh"] != b["fresh"] or a["i"] != b["i"]:
             return "identity of the result: impl=(%s, fresh=%s) model=(%s, fresh=%s)" % (a["i"], a["fresh"], b["i"], b["fresh"])
-        why = _snap_agree(a["snap"], b["snap"], M, extra)
+        why = _snap_agree(a["snap"], b["snap"], M, extra, base)
         if why:
             return why
         if a["alias"] is not None and a["alias"] != b["snap"].get("alias"):
             return "sharing: impl holds the container of member %s, model of member %s" % (a["alias"], b["snap"].get("alias"))
     elif a["t"] == "num":
-        if not _num_ok(a["x"], b["x"], M, extra):
+        if not _num_ok(a["x"], b["x"], M, extra, base):
             return "value %r vs %s" % (float.fromhex(a["x"]), float(qparse(b["x"])))
     elif a["t"] == "cont":
         if (a["shared"] is not None and a["shared"] != b["shared"]) or a["kind"] != b["kind"] or len(a["xs"]) != len(b["xs"]):
             return "returned container: impl=(shared=%s,%s,%d) model=(shared=%s,%s,%d)" % (
                 a["shared"], a["kind"], len(a["xs"]), b["shared"], b["kind"], len(b["xs"]))
         for x, y in zip(a["xs"], b["xs"]):
-            if not _num_ok(x, y, M, extra):
+            if not _num_ok(x, y, M, extra, base):
                 return "element %r vs %s" % (float.fromhex(x), float(qparse(y)))
     elif a["t"] == "fval":
         if a["shared"] != b["shared"]:
@@ -1400,24 +1725,33 @@ def agree(c, io, mo, ctx):
         real = io.get("ok") if "ok" in io else io.get("err")
         model = True if "ok" in mo else (False if mo.get("err") == "value" else mo.get("err"))
         return None if real == model else "verdict: impl=%s model=%s" % (real, model)
+    if c["_t"].get("tuples"):
+        return _agree_tuples(c, io, mo)
     ops = c["_t"]["ops"]
     if len(io["outs"]) != len(mo.get("outs", [])):
         return "number of steps: impl=%d model=%d (%s)" % (len(io["outs"]), len(mo.get("outs", [])), str(io["outs"][-1])[:200])
     dev = []          # per pool member: observed relative distance float vs exact (inherited by later results)
+    dts = [m.get("dt") for m in io["pool"]]
+    mags = []         # per pool member: the magnitude M of the step that created it
     for i, (op, a, b) in enumerate(zip(ops, io["outs"], mo["outs"])):
         extra = 4 * sum((dev[x] for x in _operand_indices(op) if x < len(dev)), F(0))
-        why = _agree_step(op, a, b, extra)
+        low = any(dts[x] == "float32" for x in _operand_indices(op) if x < len(dts))
+        why = _agree_step(op, a, b, extra, low)
         if why:
             return "step %d %s: %s" % (i, op, why)
         if "ok" in a and a["ok"]["t"] == "obj" and a["ok"]["fresh"]:
             dev.append(_dev(a["ok"]["snap"], b["ok"]["snap"]))
+            mags.append(qparse(b["M"]))
             if dev[-1] > F(1, 10 ** 6):
                 ctx.notes["results numerically unconstrained after cancellation"] = ctx.notes.get(
                     "results numerically unconstrained after cancellation", 0) + 1
     if len(io["pool"]) != len(mo["pool"]):
         return "pool sizes differ"
     for i, (rs, ms, al) in enumerate(zip(io["pool"], mo["pool"], io["aliases"])):
-        why = _snap_agree(rs, ms, 0, 2 * dev[i] if i < len(dev) else 0)
+        # the numbers were compared when the member was created (relative to that step's magnitude M: a conversion
+        # that lands on an exact zero leaves float noise); here the same member is looked at again after the history
+        why = _snap_agree(rs, ms, mags[i] if i < len(mags) else 0, 2 * dev[i] if i < len(dev) else 0,
+                          TOL32 if rs.get("dt") == "float32" else TOL)
         if why:
             return "final pool member %d: %s" % (i, why)
         if al is not None and al != ms.get("alias"):
@@ -1429,6 +1763,8 @@ def agree(c, io, mo, ctx):
 def nontrivial(c, io):
     if c["op"] == "validate":
         return len(c["_t"]["xs"]) >= 2
+    if c["_t"].get("tuples"):
+        return sum(len(r) for r in c["_t"]["rows"]) >= 2
     shares = any(a is not None and a < i for i, a in enumerate(io["aliases"]))
     return shares and len(io["pool"]) > 8
 
@@ -1451,6 +1787,17 @@ def oracle(c, ctx):
         if before != after:
             return dict(clause="a validation operation changed the container of the Array it validated",
                         scenario=c["_t"], before=before[:3], after=after[:3])
+        return None
+    if c["_t"].get("tuples"):
+        try:
+            out = _run_tuples(ctx, c["_t"])
+        except Exception as e:
+            return dict(clause="the tuple-of-tuples scenario cannot be run", error=repr(e)[:300])
+        if out["changed"]:
+            return dict(clause="a read (GetValues(unit) / IsValid / str / CreateCopy / arithmetic) changed the nested "
+                               "container of a tuple-of-tuples Array", scenario=c["_t"])
+        if out["copy_eq"] is not True:
+            return dict(clause="CreateCopy() of a tuple-of-tuples Array is not equal to the original", scenario=c["_t"])
         return None
     ops = c["_t"]["ops"]
     try:
@@ -1513,6 +1860,7 @@ def oracle(c, ctx):
 
 def search(ctx):
     yield from _gen_validate(ctx, "s", 2000)
+    yield from _gen_tuples(ctx, "s", 500)
     yield from _gen(ctx, "s", 400 if ctx.tier == "quick" else 3000, 40)
 
 
@@ -1540,7 +1888,7 @@ def _remap(op, p):
 
 
 def shrink(case, failure, ctx):
-    if case["op"] == "validate":
+    if case["op"] == "validate" or case["_t"].get("tuples"):
         return case, failure
     return _shrink_history(case, failure, ctx)
 
